@@ -227,7 +227,163 @@ def hyp_job(job):
     return acc
 
 
+# ---------------------------------------------------------------------------------------------
+# through the API, over histories: a setting / sensor id is always fetched from ITS OWN registers (those of the definition
+# the inverter object currently lists under that id), whatever was read from the object before
+# ---------------------------------------------------------------------------------------------
+class _Recorder:
+    def __init__(self, inner, tcp):
+        self.inner, self.tcp, self.reqs, self.fail_next = inner, tcp, [], 0
+
+    def respond(self, data):
+        self.reqs.append(bytes(data[2:]) if self.tcp else bytes(data))
+        if self.fail_next:
+            self.fail_next -= 1
+            return None
+        return self.inner.respond(data)
+
+    def __getattr__(self, name):
+        return getattr(self.inner, name)
+
+
+def _hist_configs():
+    out = []
+    for serial, power in ((b"9010KETU000W0000", 10000), (b"925KETT000W00001", 25000), (b"95000EHU000W0001", 5000)):
+        for arm in (10, 18, 19, 24):
+            out.append({"family": "ET", "serial": serial, "rated_power": power, "refuse": [], "battery_mode": 1, "tcp": bool(arm & 2), "arm": arm})
+    out.append({"family": "ET", "serial": b"9010KETU000W0000", "rated_power": 10000, "refuse": ["eco_v2", "peak_shaving"], "battery_mode": 1, "tcp": False, "arm": 24})
+    for serial in (b"9010KDTU000W0000", b"9010KMSU000W0000"):
+        out.append({"family": "DT", "serial": serial, "refuse": [], "tcp": serial[5:7] == b"MS"})
+    for serial in (b"95048ESU000W0000", b"95048EMU000W0000", b"95048XYZ000W0000"):
+        for fw in (b"02041", b"2214E", b"1107E"):
+            out.append({"family": "ES", "serial": serial, "firmware": fw})
+    return out
+
+
+HISTORIES = ("fresh", "preread", "failed-info-then-preread", "info-twice", "reverse-twice", "runtime-first")
+
+
+def _run_history(cfg, hist, salt):
+    from goodwe.exceptions import InverterError
+    from vlib import siminv
+    from vlib.harness import run_sync
+    c = {k: v for k, v in cfg.items() if k != "arm"}
+    inv, sim = siminv.build_direct(c, default=lambda a: (a * 40503 + salt * 977 + 11) & 0xFFFF)
+    if cfg["family"] == "ET":
+        sim.set_bytes(0x88b8, siminv.et_device_info(serial=cfg["serial"], rated_power=cfg["rated_power"], arm=cfg["arm"]))
+        sim.set(35184, 1)
+    if cfg["family"] == "ES":
+        sim.regs = _EsRegs(lambda a: (a * 40503 + salt * 977 + 11) & 0x7FFF)
+    rec = _Recorder(siminv.responder_for(inv, sim), cfg.get("tcp", False))
+    siminv.attach_direct(inv, rec)
+
+    def call(coro):
+        try:
+            return ("ok", repr(run_sync(coro)))
+        except (InverterError, ValueError) as ex:
+            return ("exc", type(ex).__name__)
+
+    def read_all(ids, store=None):
+        for kind, sid in ids:
+            n0 = len(rec.reqs)
+            r = call(inv.read_setting(sid) if kind == "setting" else inv.read_sensor(sid))
+            if store is not None:
+                store[(kind, sid)] = (r, tuple(rec.reqs[n0:]))
+
+    def ids_now():
+        return [("setting", s.id_) for s in inv.settings()] + [("sensor", s.id_) for s in inv.sensors()[::7]]
+
+    if hist == "preread":
+        read_all(ids_now())
+    elif hist == "failed-info-then-preread":
+        rec.fail_next = 1
+        call(inv.read_device_info())
+        read_all(ids_now())
+    elif hist == "runtime-first":
+        call(inv.read_runtime_data())
+        read_all(ids_now()[:40])
+    info = call(inv.read_device_info())
+    if hist == "info-twice":
+        read_all(ids_now())
+        call(inv.read_device_info())
+    out = {}
+    ids = ids_now()
+    if hist == "reverse-twice":
+        read_all(list(reversed(ids)))
+        read_all(list(reversed(ids)), out)
+    else:
+        read_all(ids, out)
+    defs = {("setting", s.id_): s for s in inv.settings()}
+    return info, out, defs
+
+
+class _EsRegs(dict):
+    def __init__(self, fn):
+        super().__init__()
+        self.fn = fn
+
+    def get(self, a, default=0):
+        return dict.get(self, a, self.fn(a))
+
+
+def history_job(job):
+    part, parts = job
+    acc = Acc()
+    cfgs = _hist_configs()
+    for i, cfg in enumerate(cfgs):
+        if i % parts != part:
+            continue
+        try:
+            info0, base, defs = _run_history(cfg, "fresh", i)
+        except Exception as ex:
+            acc.fail("C12|history|harness|%s" % type(ex).__name__, repr(ex), {"history": True, "cfg": cfg, "hist": "fresh"})
+            continue
+        # absolute: a Modbus setting is fetched by ONE read of exactly its own registers
+        if cfg["family"] != "ES":
+            for key, (r, reqs) in base.items():
+                s = defs.get(key)
+                if s is None or not reqs:
+                    continue
+                try:
+                    op = rw.parse_tcp_request(b"\0\1" + reqs[-1])[1] if cfg.get("tcp") else rw.parse_rtu_request(reqs[-1])
+                except rw.ParseError:
+                    continue
+                want = (s.offset, (s.size_ + s.size_ % 2) // 2)
+                acc.case()
+                if op["kind"] == "read" and (op["reg"], op["count"]) != want:
+                    acc.fail("C12|history|foreign-registers|fresh", "%s '%s' lists registers %d+%d but was fetched from %d+%d" % (
+                        key[0], key[1], want[0], want[1], op["reg"], op["count"]), {"history": True, "cfg": cfg, "hist": "fresh"})
+        for hist in HISTORIES[1:]:
+            case = {"history": True, "cfg": cfg, "hist": hist}
+            acc.case()
+            acc.nontrivial("history", repr(sorted(cfg.items())), hist)
+            try:
+                info, got, _ = _run_history(cfg, hist, i)
+            except Exception as ex:
+                acc.fail("C12|history|exception|%s" % type(ex).__name__, "%r in history %s" % (ex, hist), case)
+                continue
+            if info != info0 or set(got) != set(base):
+                continue    # the device-info outcome / listed ids differ: not comparable (other properties)
+            for key in base:
+                if got[key][1] != base[key][1]:
+                    acc.fail("C12|history|foreign-registers|%s" % cfg["family"],
+                             "%s '%s' is fetched with request(s) %s on a fresh object but %s after history '%s' (the same ids were only READ before)" % (
+                                 key[0], key[1], [x.hex() for x in base[key][1]], [x.hex() for x in got[key][1]], hist), case)
+                    break
+                if got[key][0] != base[key][0]:
+                    acc.fail("C12|history|value-differs|%s" % cfg["family"],
+                             "%s '%s' reads %s on a fresh object but %s after history '%s' (same register contents)" % (
+                                 key[0], key[1], base[key][0], got[key][0], hist), case)
+                    break
+        if len(acc.samples) < 1:
+            acc.sample({"history": True, "cfg": cfg, "hist": list(HISTORIES)})
+    return acc
+
+
 def run(ctx):
+    ctx.shard(history_job, [(p, 16) for p in range(16)],
+              "API level: every setting id + every 7th sensor id read on a fresh object vs. after reading histories (pre-reads before / "
+              "around read_device_info, failed device info, reverse order) - same requests, same values")
     sensors = typed_sensors()
     ctx.extra["sensor_instances"] = len(sensors)
     per = (len(sensors) + 15) // 16
@@ -258,6 +414,9 @@ def run(ctx):
 
 
 def replay(ctx, case):
+    if case.get("history"):
+        ctx.acc.merge(history_job((0, 1)))
+        return
     s = tables.find(case["family"], case["table"], case["index"])
     check_one(ctx.acc, case["family"], case["table"], case["index"], s, case["own"], case.get("first_delta", 0),
               case.get("salt", 0), case.get("style", 2), case.get("tcp", False))
